@@ -30,4 +30,31 @@ theorem push_lazy_clones_once (w : World) (src dst i id : Nat) (s d d1 : VecSt) 
     valMoveInto, readElem, List.getElem?_set, hne, hsd, VecSt.readElem_ok, hb, hc, cloneElem, tick, hf, fresh,
     World.writeCell, VecSt.writeCell_ok, h3, World.upd, VecSt.pushCell]
 
+/-- the same for `insert` at any index `j ≤ len`: one clone, placed at `j`, the elements from `j` on shifted by one -/
+theorem insert_lazy_clones_once (w : World) (src dst i j id : Nat) (s d d1 : VecSt) (es : List Event)
+    (hsd : src ≠ dst)
+    (hs : w.vecs[src]? = some s) (hsl : s.live = true) (hswf : s.WF) (hi : i < s.len)
+    (hc : s.cells.get i = .val id)
+    (hv : w.vecs[dst]? = some d) (hl : d.live = true) (hwf : d.WF) (hty : s.ty = d.ty) (hj : j ≤ d.len)
+    (hr : d.reserveOne = .ok (d1, es)) (hf : w.fault = none) :
+    insert dst j (.lazyElem src i) w =
+      ({ w with vecs := w.vecs.set dst (d1.insertAt j (.val w.created)),
+                created := w.created + 1,
+                ev := Event.clone id w.created :: (es.reverse ++ w.ev) }, .ok ()) := by
+  have hlt : dst < w.vecs.length := (List.getElem?_eq_some_iff.mp hv).1
+  have hd : w.vecs[dst] = d := (List.getElem?_eq_some_iff.mp hv).2
+  have hslt : src < w.vecs.length := (List.getElem?_eq_some_iff.mp hs).1
+  have hsdd : w.vecs[src] = s := (List.getElem?_eq_some_iff.mp hs).2
+  obtain ⟨h3, h1, _, _, _, _, _, _, _, _, h4⟩ := reserveOne_spec d d1 es hwf hr
+  have hl1 : d1.live = true := by rw [h4]; exact hl
+  have hb : i < s.cap := by have := hswf.len_le_cap; omega
+  have hne : ¬ dst = src := fun h => hsd h.symm
+  have hnot : ¬ (d.len < j) := by omega
+  have hb1 : j + (d.len - j) ≤ d1.cap := by omega
+  have hb2 : j + 1 + (d.len - j) ≤ d1.cap := by omega
+  have hb3 : j < d1.cap := by omega
+  simp [World.insert, valTy, getVec, hl, hlt, hd, hsl, hslt, hsdd, hty, insertUnchecked, hnot, WM.onUnwind, vecOp, hr, hl1,
+    setLen, moveElems, valKnownType, VecSt.moveElems_ok, hb1, hb2, hb3, h1,
+    valMoveInto, readElem, List.getElem?_set, hne, hsd, VecSt.readElem_ok, hb, hc, cloneElem, tick, hf, fresh,
+    World.writeCell, VecSt.writeCell_ok, h3, World.upd, VecSt.insertAt]
 end AnyVec
